@@ -590,7 +590,7 @@ def c16(ctx):
             todo.append((F.fn(d), "runner"))
     for fn, who in todo:
         n6 += lazy_consumers(ctx, "C16.R6", fn, who)
-    rep.floor("C16.R6", n6, 6, "lazily mapped visits")
+    rep.floor("C16.R6", n6, 3, "lazily mapped visits")
     rep.rule("C16.R7", "children in field order: for two visitable children of one node (same variant), the call site that visits the field "
              "declared later is never followed by the one that visits the field declared earlier (closures are placed where they "
              "run: eager combinators at their call, lazily mapped closures at the consumer of the iterator)")
